@@ -46,12 +46,81 @@ def make_program(K, profile):
             ok = False
         if ok and not inspection_clean(prog):
             ok = False
+        if ok and profile.get("data_fault"):
+            ok = inject_data_fault(prog, K.rng("datafault", tries))
         tries += 1
         if ok or tries > 40:
             prog["_features"] = feats
             prog["_tries"] = tries
             prog["_ok"] = ok
             return prog
+
+
+def inject_data_fault(prog, rng):
+    """Replace one expression of the definition, at a seeded position, by one that fails on the
+    data delivered (C11 a).  Records the position in prog['_fault']."""
+    kind = rng.choice(lang.FAULT_KINDS)
+    node = ["faulty", kind]
+    pos = []
+    names = list(prog["tasks"].keys())
+    for n in names:
+        t = prog["tasks"][n]
+        pos.append(("input", n))
+        pos.append(("action", n))
+        pos.append(("delay", n))
+        if t.get("with"):
+            pos.append(("items", n))
+            pos.append(("concurrency", n))
+        if t.get("retry"):
+            pos.append(("retry_when", n))
+            pos.append(("retry_count", n))
+            pos.append(("retry_delay", n))
+        for i, tr in enumerate(t.get("next") or []):
+            if "retry" in (tr.get("do") or []):
+                continue
+            pos.append(("when", n, i))
+            pos.append(("publish", n, i))
+    pos.append(("vars",))
+    pos.append(("output",))
+    pos.append(("wf_input",))
+    # task-level positions dominate the list; give the workflow-level ones a fair share
+    if rng.random() < 0.12:
+        where = rng.choice([("vars",), ("output",), ("wf_input",)])
+    else:
+        where = rng.choice(pos)
+    w = where[0]
+    if w == "vars":
+        prog["vars"].append(["fv_zz", node])
+    elif w == "output":
+        prog["output"].insert(rng.randrange(len(prog["output"]) + 1), ["o_fault", node])
+    elif w == "wf_input":
+        prog["input"].append(["in_fault", None])
+        prog["inputs"]["in_fault"] = lang.wrap(lang._faulty_expr(kind, "yaql"), "yaql")
+    else:
+        t = prog["tasks"][where[1]]
+        if w == "input":
+            t["input"]["f_zz"] = node
+        elif w == "action":
+            t["action"] = node
+        elif w == "delay":
+            t["delay"] = node
+        elif w == "items":
+            t["with"]["items"] = node
+        elif w == "concurrency":
+            t["with"]["concurrency"] = node
+        elif w == "retry_when":
+            t["retry"]["when"] = node
+        elif w == "retry_count":
+            t["retry"]["count"] = node
+        elif w == "retry_delay":
+            t["retry"]["delay"] = node
+        elif w == "when":
+            t["next"][where[2]]["when"] = node
+        elif w == "publish":
+            t["next"][where[2]]["publish"].append(["v0", node])
+    prog["_fault"] = {"pos": w, "task": where[1] if len(where) > 1 else None,
+                      "tr": where[2] if len(where) > 2 else None, "kind": kind}
+    return True
 
 
 _inspect_cache = {}
@@ -236,7 +305,7 @@ class Scheduler(object):
                 self.do(["mark", ev[1], "running"])
                 continue
             if ev[0] == "dup":
-                self.do(["dup"] + list(ev[1]))
+                self.do(["dup", ev[1]])
                 self.after_handler()
                 continue
             aid = ev[1]
@@ -254,13 +323,9 @@ class Scheduler(object):
             if self.order_started and aid != self.first_outstanding():
                 self.stats["fault_reorder"] = self.stats.get("fault_reorder", 0) + 1
             self.order_done.append(aid)
-            acc = copy.deepcopy(x.items["results"]) if a["item"] is not None else None
             self.do(["deliver", aid, status, result])
-            if a["item"] is not None:
-                acc = copy.deepcopy(x.items["results"])
             if self.coin("dup", aid):
-                self.heap.push(self.heap.now + self.K.u("fault", "dupdelay", aid) * 5,
-                               ("dup", [a["task"], a["route"], a["item"], status, result, acc]))
+                self.heap.push(self.heap.now + self.K.u("fault", "dupdelay", aid) * 5, ("dup", aid))
             self.after_handler()
         self.do(["final"])
 
